@@ -20,7 +20,7 @@ VARIABLES sc, emitted
 Offsets == IF OffSet = {} THEN 0..OffHi ELSE OffSet
 Positions == 0..2
 Reqs == {"CreateContainer", "UpdateContainer", "StopContainer", "StartContainer", "UpdatePodSandbox"}
-FastFaults == {"none", "close-before", "close-during", "handler-error", "close-after", "wrong-frame"}
+FastFaults == {"none", "close-before", "close-during", "handler-error", "handler-error-deadline", "close-after", "wrong-frame"}
 SlowFaults == {"hang", "hang-ctx", "garbage"}
 
 Scenarios ==
